@@ -404,11 +404,16 @@ func (f *fixture) roundTrip(rt route, base string, premeta bool) outcome {
 	o.Path = o.Voucher
 	if strings.HasPrefix(o.Voucher, "ibc/") {
 		d, err := appB.TransferKeeper.GetDenomFromIBCDenom(w.CS[1].Ctx, o.Voucher)
-		if err != nil {
-			o.Leg, o.Err = "forward-credit", "B credited "+o.Voucher+" but records no denomination for it: "+err.Error()
+		switch {
+		case err == nil:
+			o.Path = d.Path()
+		case rt.V2:
+			// a v2 sender has to name the path in the payload; without the record nobody can tell it
+			o.Leg, o.Err = "return-denom-lookup", "B credited "+o.Voucher+" but its transfer keeper records no denomination for it: "+err.Error()
 			return o
+		default:
+			o.Path = "(B records no denomination for " + o.Voucher + ")" // v1: MsgTransfer names the coin, the module looks the path up itself
 		}
-		o.Path = d.Path()
 	}
 
 	// ---- leg 2: B -> A, the voucher the receiver holds ----
